@@ -62,7 +62,9 @@ type Contract struct {
 	Nilable   map[string]bool
 	MayPanic  bool
 	Pure      bool
-	NoSafety  bool // implicit panics are assumed away, not checked, under this contract
+	NoSafety  bool
+	Consumes  []string // ghost tokens given away by the call/send/spawn: checked == 1, then set to 0
+	Produces  []string // chanfield: ghost tokens obtained by the receiver: set to 1 // implicit panics are assumed away, not checked, under this contract
 	Defines   []*Clause
 	File      string
 	IsIface   bool
@@ -101,7 +103,7 @@ func (c *Contract) nilable(name string, isRecv bool) bool {
 	return c.Nilable[name]
 }
 
-var clauseKeywords = map[string]bool{"nosafety": true, "invariant": true, "history": true, "atsend": true, "atcall": true, "nilable": true, "pure": true, "defines": true, "requires": true, "ensures": true, "modifies": true, "loop": true, "property": true,
+var clauseKeywords = map[string]bool{"consumes": true, "produces": true, "nosafety": true, "invariant": true, "history": true, "atsend": true, "atcall": true, "nilable": true, "pure": true, "defines": true, "requires": true, "ensures": true, "modifies": true, "loop": true, "property": true,
 	"inline": true, "trusted": true, "nilrecv": true, "maypanic": true, "label": true, "replay": true, "topensures": true}
 
 func (e *Engine) loadContracts(dir string, pkg *types.Package) error {
@@ -257,7 +259,15 @@ func (e *Engine) loadContractFile(path string, pkg *types.Package) error {
 			e.ghosts[g.Name] = g
 			pendingPred, cur, lastClause = nil, nil, nil
 			continue
-		case kw == "func" || kw == "closure" || kw == "iface" || kw == "functype" || kw == "funcfield":
+		case kw == "owned":
+			// owned T ghost: every access through a *T requires ghost(obj) == 1
+			if e.owned == nil {
+				e.owned = map[string]string{}
+			}
+			e.owned[pkg.Path()+"."+fields[1]] = fields[2]
+			pendingPred, cur, lastClause = nil, nil, nil
+			continue
+		case kw == "func" || kw == "closure" || kw == "iface" || kw == "functype" || kw == "funcfield" || kw == "chanfield" || kw == "extern":
 			if err := register(); err != nil {
 				return err
 			}
@@ -280,6 +290,29 @@ func (e *Engine) loadContractFile(path string, pkg *types.Package) error {
 				}
 				c.Decl = fd
 				c.Key = funcKey(pkg, fd, "$"+strings.TrimSpace(rest[i+1:]))
+			case "extern":
+				// extern import/path.Func(params) (results): assumed contract on a function outside the repository (T3)
+				j := strings.Index(rest, "(")
+				i := strings.LastIndex(rest[:j], ".")
+				fd, err := parseFuncHeader("func " + rest[i+1:])
+				if err != nil {
+					return fail(err)
+				}
+				c.Decl = fd
+				c.Trusted = true
+				c.Key = rest[:i] + "." + fd.Name.Name
+			case "chanfield":
+				// chanfield Type.field(v T): channel invariant (requires: checked at send, assumed at receive),
+				// consumes / produces ghost tokens
+				i := strings.Index(rest, ".")
+				j := strings.Index(rest, "(")
+				fd, err := parseFuncHeader("func (self int) send" + rest[j:])
+				if err != nil {
+					return fail(err)
+				}
+				c.Decl = fd
+				c.IsIface = true
+				c.Key = "chanfield:" + pkg.Path() + "." + rest[:i] + "." + rest[i+1:j]
 			case "funcfield":
 				// funcfield Type.field(params) (results): contract on calls through a func-valued struct field
 				i := strings.Index(rest, ".")
@@ -433,6 +466,12 @@ func (e *Engine) loadContractFile(path string, pkg *types.Package) error {
 			lastClause = &Clause{Text: strings.TrimSpace(strings.TrimPrefix(rest, fields[1])), Label: pendingLabel}
 			cur.AtCall = append(cur.AtCall, &AtSend{Field: fields[1], Clause: lastClause})
 			pendingLabel = ""
+		case "consumes":
+			cur.Consumes = append(cur.Consumes, splitTop(rest, ',')...)
+			lastClause = nil
+		case "produces":
+			cur.Produces = append(cur.Produces, splitTop(rest, ',')...)
+			lastClause = nil
 		case "nosafety":
 			cur.NoSafety = true
 		case "pure":
